@@ -122,6 +122,26 @@ def generate(tier, seed, info):
                 ops.append({1: "r8", 2: "r16", 4: "r32"}[sz] + ":%x" % a)
         if ops:
             add(ops, tagged=rnd.random() < 0.8)
+    # 4a. decoding must not depend on what other plain registers hold: first arbitrary values into a good number of plain
+    #     I/O register bytes (bus controller, module stop, DRAM controller, timer and serial registers ...), then write /
+    #     read-back sweeps over register bytes and memory, then the first registers are read back
+    io1 = [a for a in range(0xfee00b, 0xfee100)]
+    io2 = [a for a in range(0xffff20, 0xffffea) if not is_port(a)]
+    for _ in range(1500 if tier == "quick" else 20000):
+        ops = []
+        first = []
+        for _k in range(rnd.randrange(4, 24)):
+            a = rnd.choice(io1 if rnd.random() < 0.7 else io2)
+            v = rnd.choice([0xff, 0xff, 1, 2, 4, 8, 0x10, 0x20, 0x40, 0x80, rnd.randrange(256)])
+            ops.append("w8:%x:%x" % (a, v)); first.append(a)
+        sweep = rnd.sample(io2, rnd.randrange(6, 30)) + rnd.sample(io1, rnd.randrange(2, 10)) + \
+                [rnd.randrange(0xffbf20, 0xffff20), rnd.randrange(0x400000, 0x600000), rnd.randrange(0, 0x100)]
+        rnd.shuffle(sweep)
+        for a in sweep:
+            ops.append("w8:%x:%x" % (a, rnd.randrange(256))); ops.append("r8:%x" % a)
+        for a in first[:6]:
+            ops.append("r8:%x" % a)
+        add(ops, tagged=rnd.random() < 0.5)
     # 5. the absolute-address access helpers: @aa:8 reaches H'FFFF00+aa, @aa:16 the sign-extended 24-bit address
     #    (write through the short form, read back through the 24-bit form and vice versa; a far location must not change)
     def ea16(a):
